@@ -229,6 +229,11 @@ func tEq(a, b *Term) *Term {
 	if a.cst && b.cst && a.kind != SFP {
 		return mkBool(a.ival.Cmp(b.ival) == 0)
 	}
+	if a.kind == SInt {
+		if r := viewCmp("=", a, b); r != nil {
+			return r
+		}
+	}
 	if b.cst && a.op == "ite" && constLeaves(a, 4) {
 		return tIte(a.args[0], tEq(a.args[1], b), tEq(a.args[2], b))
 	}
@@ -338,6 +343,9 @@ func iRemT(a, b *Term) *Term {
 }
 
 func iCmp(op string, a, b *Term) *Term {
+	if r := viewCmp(op, a, b); r != nil {
+		return r
+	}
 	if b.cst && a.op == "ite" && constLeaves(a, 4) {
 		return tIte(a.args[0], iCmp(op, a.args[1], b), iCmp(op, a.args[2], b))
 	}
@@ -365,6 +373,18 @@ func pow2(n int) *big.Int { return new(big.Int).Lsh(big.NewInt(1), uint(n)) }
 
 // wrapInt reduces an Int term to the range of a w-bit Go integer.
 func wrapInt(a *Term, w int, signed bool) *Term {
+	if x, sx, ok := bvView(a); ok {
+		switch {
+		case x.w == w && sx == signed:
+			return a
+		case x.w == w && signed:
+			return mkApp(SInt, 0, "sbv2int", x)
+		case x.w == w:
+			return mkApp(SInt, 0, "bv2nat", x)
+		case x.w < w && (!sx || signed):
+			return a // value fits
+		}
+	}
 	m := pow2(w)
 	if a.cst {
 		v := new(big.Int).Mod(a.ival, m)
@@ -522,14 +542,111 @@ func bvToInt(a *Term, signed bool) *Term {
 	if a.op == "int2bv" { // int2bv of an in-range term: inverse
 		return wrapInt(a.args[0], a.w, signed)
 	}
-	n := mkApp(SInt, 0, "bv2nat", a)
 	if !signed {
-		return n
+		return mkApp(SInt, 0, "bv2nat", a)
 	}
-	return tIte(bvCmp("bvslt", a, mkBV(big.NewInt(0), a.w)), iSub(n, mkInt(pow2(a.w))), n)
+	// signed view of a bit-vector: printed as the usual ite, but kept recognisable so that
+	// comparisons can be pushed back into the bit-vector domain (see bvView)
+	return mkApp(SInt, 0, "sbv2int", a)
+}
+
+// bvView recognises Int-sorted terms that are just a (signed/unsigned) reading of a bit-vector.
+func bvView(t *Term) (x *Term, signed bool, ok bool) {
+	if t.kind != SInt || t.cst || len(t.args) != 1 {
+		return nil, false, false
+	}
+	switch t.op {
+	case "bv2nat":
+		return t.args[0], false, true
+	case "sbv2int":
+		return t.args[0], true, true
+	}
+	return nil, false, false
+}
+
+// viewCmp tries to decide/translate a comparison between a bit-vector view and a constant or
+// another view of the same width and signedness without leaving the bit-vector theory.
+func viewCmp(op string, a, b *Term) *Term {
+	xa, sa, oka := bvView(a)
+	xb, sb, okb := bvView(b)
+	pre := "bvu"
+	rng := func(w int, signed bool) (*big.Int, *big.Int) {
+		if signed {
+			return new(big.Int).Neg(pow2(w - 1)), new(big.Int).Sub(pow2(w-1), big.NewInt(1))
+		}
+		return big.NewInt(0), new(big.Int).Sub(pow2(w), big.NewInt(1))
+	}
+	mk := func(x, y *Term, signed bool) *Term {
+		if signed {
+			pre = "bvs"
+		}
+		switch op {
+		case "<":
+			return bvCmp(pre+"lt", x, y)
+		case "<=":
+			return bvCmp(pre+"le", x, y)
+		case ">":
+			return bvCmp(pre+"gt", x, y)
+		case ">=":
+			return bvCmp(pre+"ge", x, y)
+		case "=":
+			return tEq(x, y)
+		}
+		return nil
+	}
+	if oka && okb && sa == sb && xa.w == xb.w {
+		return mk(xa, xb, sa)
+	}
+	if oka && okb && xa.w == xb.w {
+		// mixed signedness, same width: a negative signed value is below every unsigned one,
+		// otherwise both are compared as unsigned bit patterns
+		flip := map[string]string{"<": ">", "<=": ">=", ">": "<", ">=": "<=", "=": "="}
+		xs, xu, o := xa, xb, op
+		if !sa {
+			xs, xu, o = xb, xa, flip[op]
+		}
+		zero := mkBV(big.NewInt(0), xs.w)
+		neg := bvCmp("bvslt", xs, zero)
+		switch o {
+		case "<":
+			return tOr(neg, bvCmp("bvult", xs, xu))
+		case "<=":
+			return tOr(neg, bvCmp("bvule", xs, xu))
+		case ">":
+			return tAnd(tNot(neg), bvCmp("bvugt", xs, xu))
+		case ">=":
+			return tAnd(tNot(neg), bvCmp("bvuge", xs, xu))
+		case "=":
+			return tAnd(tNot(neg), tEq(xs, xu))
+		}
+	}
+	if oka && b.cst {
+		lo, hi := rng(xa.w, sa)
+		if b.ival.Cmp(lo) < 0 { // a >= lo > b
+			return mkBool(op == ">" || op == ">=")
+		}
+		if b.ival.Cmp(hi) > 0 {
+			return mkBool(op == "<" || op == "<=")
+		}
+		return mk(xa, mkBV(b.ival, xa.w), sa)
+	}
+	if okb && a.cst {
+		lo, hi := rng(xb.w, sb)
+		if a.ival.Cmp(lo) < 0 {
+			return mkBool(op == "<" || op == "<=")
+		}
+		if a.ival.Cmp(hi) > 0 {
+			return mkBool(op == ">" || op == ">=")
+		}
+		return mk(mkBV(a.ival, xb.w), xb, sb)
+	}
+	return nil
 }
 
 func intToBV(a *Term, w int) *Term {
+	if x, _, ok := bvView(a); ok && x.w == w {
+		return x
+	}
 	if a.kind == SBV {
 		if a.w != w {
 			panic("intToBV width")
@@ -580,6 +697,17 @@ func (t *Term) write(sb *strings.Builder, s *Solver) {
 	op := t.op
 	if op == "int2bv" {
 		op = fmt.Sprintf("(_ int2bv %d)", t.w)
+	}
+	if op == "sbv2int" {
+		x := t.args[0]
+		sb.WriteString("(ite (bvslt ")
+		x.write(sb, s)
+		fmt.Fprintf(sb, " (_ bv0 %d)) (- (bv2nat ", x.w)
+		x.write(sb, s)
+		sb.WriteString(") " + pow2(x.w).String() + ") (bv2nat ")
+		x.write(sb, s)
+		sb.WriteString("))")
+		return
 	}
 	sb.WriteString("(")
 	sb.WriteString(op)
